@@ -15,6 +15,7 @@ FFORMS = [("absent", []), ("unnamed", [None]), ("named-base", ["foo"]), ("named-
 PPKG = [None, "p", "other", "p_test", "pp"]
 FPKG = ["p", "p_test", "pp"]
 LAYOUT = ["single", "grouped", "grouped-with-others", "two-blocks"]
+RAW_LAYOUT = ["raw-single", "raw-grouped"]      # import paths written as raw string literals
 
 
 def ref_import(pname, fnames):
@@ -36,8 +37,10 @@ def spec(name, path):
     return ("%s \"%s\"" % (name, path)) if name else "\"%s\"" % path
 
 
-def make_patch(ppkg, pform, second, on_minus, code):
+def make_patch(ppkg, pform, second, on_minus, code, pkg_metavar=None):
     lines = ["@@", "var x expression", "var n identifier", "@@"] if pform == "$n" or second == "$n" else ["@@", "var x expression", "@@"]
+    if pkg_metavar and ppkg:
+        lines.insert(2, "var %s %s" % (ppkg, pkg_metavar))          # the package name of the clause is ALSO a declared metavariable
     if pform == "$bar" or second == "$bar":
         lines.insert(2, "var bar expression")
     mark = "-" if on_minus else " "
@@ -60,6 +63,9 @@ def make_patch(ppkg, pform, second, on_minus, code):
 
 def make_file(fpkg, fnames, others, layout, body):
     specs = [spec(n, PATH) for n in fnames] + [spec(n, p) for n, p in others]
+    if layout.startswith("raw-"):
+        specs = [x.replace('"', "`") for x in specs]
+        layout = layout[4:]
     out = "package %s\n\n" % fpkg
     if specs:
         if layout == "single":
@@ -99,6 +105,25 @@ def main():
             pairs.append(("p.patch", patch.encode(), "a.go", src.encode()))
             metas.append({"part": "table", "patch_form": pl, "file_form": fl, "patch_pkg": ppkg, "file_pkg": fpkg, "on": "-" if on_minus else "context",
                           "layout": layout, "expect": exp})
+    # (1b) the same table with import paths written as raw strings in the file, and with the patch's package name declared as a
+    # metavariable of the change (the clause still names that package, literally)
+    for (pl, pform), (fl, fnames), ppkg, fpkg in itertools.product(PFORMS, FFORMS[:8], PPKG[:4], FPKG[:2]):
+        k += 1
+        if not thorough and k % 3:
+            continue
+        layout = RAW_LAYOUT[k % 2]
+        patch = make_patch(ppkg, pform, "absent", False, ("old(x)", "renamed(x)"))
+        src = make_file(fpkg, fnames, [], layout, BODY)
+        exp = (ppkg is None or ppkg == fpkg) and ref_import(pform, fnames)
+        pairs.append(("p.patch", patch.encode(), "a.go", src.encode()))
+        metas.append({"part": "table-raw-strings", "patch_form": pl, "file_form": fl, "patch_pkg": ppkg, "file_pkg": fpkg, "on": "context", "layout": layout, "expect": exp})
+        if ppkg and pform not in ("$n", "$bar"):
+            mvk = ["identifier", "expression"][k % 2]
+            patch = make_patch(ppkg, pform, "absent", k % 4 < 2, ("old(x)", "renamed(x)"), pkg_metavar=mvk)
+            src = make_file(fpkg, fnames, [], LAYOUT[k % 4], BODY)
+            pairs.append(("p.patch", patch.encode(), "a.go", src.encode()))
+            metas.append({"part": "table-package-name-is-a-metavariable", "patch_form": pl, "file_form": fl, "patch_pkg": ppkg + " (declared %s)" % mvk, "file_pkg": fpkg,
+                          "on": "context", "layout": LAYOUT[k % 4], "expect": exp})
     # (2) two imports in the patch: all must match
     SECOND_F = [("absent", []), ("unnamed", [None]), ("named", ["q"])]
     for (pl, pform), (fl, fnames), (sl, sform), (sfl, sfn), ppkg in itertools.product(PFORMS[1:], FFORMS[:8], PFORMS[1:5], SECOND_F, [None, "p", "other"]):
